@@ -119,6 +119,32 @@ def build_pos(kind, data, kp):
     raise ValueError(kind)
 
 
+_JUNK = ('#caller', 10 ** 6)
+
+
+def spoil(obj):
+    """what a caller may do with a container an API call handed back: reorder it, drop and add entries, empty
+    it (and the same for mutable elements). Only ever applied to RETURNED objects / to arguments after the call
+    that received them has returned; never reaches into the counter."""
+    try:
+        if isinstance(obj, list):
+            for x in obj:
+                if isinstance(x, (list, dict, set)):
+                    x.clear()
+            obj.reverse()
+            if obj:
+                obj.pop()
+            obj.append(_JUNK)
+            obj.insert(0, _JUNK)
+        elif isinstance(obj, (dict, set, collections.deque, collections.UserDict)):
+            obj.clear()
+        elif hasattr(obj, '__next__'):
+            for _ in obj:       # exhaust a returned iterator
+                pass
+    except Exception:
+        pass
+
+
 class C20(Property):
     PID = 'C20'
     QUICK_BUDGET_S = 40
@@ -689,31 +715,37 @@ class C20(Property):
                     if kind == 'i':
                         cur = op[1]
                         continue
+                    arg = None      # the object handed to update(); the caller empties it after the call
                     if kind == 'a':
                         tc.add(K(op[1]))
                     elif kind == 'u':
-                        tc.update([K(k) for k in op[1]])
+                        arg = [K(k) for k in op[1]]
+                        tc.update(arg)
                     elif kind == 'ug':
                         tc.update(K(k) for k in op[1])
                     elif kind == 'ut':
                         tc.update(tuple(K(k) for k in op[1]))
                     elif kind == 'm':
-                        tc.update({K(k): c for k, c in op[1]})
+                        arg = {K(k): c for k, c in op[1]}
+                        tc.update(arg)
                     elif kind == 'kw':
                         tc.update(**{K(k): c for k, c in op[1]})
                     elif kind == 'mkw':
                         half = len(op[1]) // 2
-                        tc.update({K(k): c for k, c in op[1][:half]}, **{K(k): c for k, c in op[1][half:]})
+                        arg = {K(k): c for k, c in op[1][:half]}
+                        tc.update(arg, **{K(k): c for k, c in op[1][half:]})
                     elif kind == 'mp':      # read-only mapping proxy (a Mapping that is not a dict)
                         tc.update(types.MappingProxyType({K(k): c for k, c in op[1]}))
                     elif kind == 'ud':
-                        tc.update(collections.UserDict({K(k): c for k, c in op[1]}))
+                        arg = collections.UserDict({K(k): c for k, c in op[1]})
+                        tc.update(arg)
                     elif kind == 'cm':
                         half = len(op[1]) // 2
                         tc.update(collections.ChainMap({K(k): c for k, c in op[1][:half]},
                                                        {K(k): c for k, c in op[1][half:]}))
                     elif kind == 'tc':      # another counter-like object exposing items()
-                        tc.update(collections.Counter({K(k): c for k, c in op[1]}))
+                        arg = collections.Counter({K(k): c for k, c in op[1]})
+                        tc.update(arg)
                     elif kind == 'up':
                         kw = {K(k): c for k, c in (op[3] or [])}
                         if op[1] == 'none':
@@ -722,16 +754,28 @@ class C20(Property):
                             else:
                                 tc.update(**kw)
                         elif op[3] is None:
-                            tc.update(build_pos(op[1], op[2], kp))
+                            arg = build_pos(op[1], op[2], kp)
+                            tc.update(arg)
                         else:
-                            tc.update(build_pos(op[1], op[2], kp), **kw)
+                            arg = build_pos(op[1], op[2], kp)
+                            tc.update(arg, **kw)
+                        spoil(kw)
                     elif kind == 't':       # another ThresholdCounter (or this one) as the mapping
                         tc.update(tcs[op[1]])
                     elif kind == 'n':
                         tcs[cur] = ThresholdCounter(threshold=th)
                     elif kind == 'q':
-                        out.append({'q': [[kname(k), c] for k, c in tc.most_common(op[1])]})
+                        # the caller post-processes the list it got back, then asks again (nothing was added)
+                        res = tc.most_common(op[1])
+                        rec = {'q': [[kname(k), c] for k, c in res]}
+                        spoil(res)
+                        again = [[kname(k), c] for k, c in tc.most_common(op[1])]
+                        if again != rec['q']:
+                            rec['q2'] = again
+                        out.append(rec)
                         continue
+                    if arg is not None:
+                        spoil(arg)
                     if self.dumps_after(case, opi):
                         out.append({'d': [self.dump(t, case, kname) for t in tcs]})
         except Exception as e:  # recorded, judged by the oracle
@@ -742,26 +786,59 @@ class C20(Property):
                'iter', 'getitem')
 
     def dump(self, tc, case, kname):
+        """every reader is called, the object it returned is handed to a caller who modifies it in place
+        (`spoil`), and the reader is called again: with no addition in between the second answer must be the
+        first one (readers whose two answers differ are recorded under 'reread')"""
         nk, kp = case['nk'], case.get('kp', 0)
-        fns = {
-            'total': lambda: tc.total,
-            'items': lambda: [[kname(k), c] for k, c in tc.items()],
-            'keys': lambda: [kname(k) for k in tc.keys()],
-            'values': lambda: list(tc.values()),
-            'len': lambda: len(tc),
-            'common': lambda: tc.get_common_count(),
-            'uncommon': lambda: tc.get_uncommon_count(),
-            'mc': lambda: [[kname(k), c] for k, c in tc.most_common()],
-            'gets': lambda: [tc.get(key(k, kp)) for k in range(nk)],
-            'has': lambda: [1 if key(k, kp) in tc else 0 for k in range(nk)],
-            'elements': lambda: [kname(k) for k in tc.elements()],
-            'iter': lambda: [kname(k) for k in tc.iterkeys()],
-            'getitem': lambda: [tc[k] for k in tc.keys()],
+        ident = lambda v: v
+        pairs = lambda v: [[kname(k), c] for k, c in v]
+        names = lambda v: [kname(k) for k in v]
+        fns = {     # name -> (call returning the API's own object, canonical JSON form of it)
+            'total': (lambda: tc.total, ident),
+            'items': (tc.items, pairs),
+            'keys': (tc.keys, names),
+            'values': (tc.values, list),
+            'len': (lambda: len(tc), ident),
+            'common': (tc.get_common_count, ident),
+            'uncommon': (tc.get_uncommon_count, ident),
+            'mc': (tc.most_common, pairs),
+            'gets': (lambda: [tc.get(key(k, kp)) for k in range(nk)], ident),
+            'has': (lambda: [1 if key(k, kp) in tc else 0 for k in range(nk)], ident),
+            'elements': (tc.elements, names),
+            'iter': (tc.iterkeys, names),
+            'getitem': (lambda: [tc[k] for k in tc.keys()], ident),
         }
         order = list(self.READERS)
         if 'ro' in case:
             random.Random(case['ro']).shuffle(order)
-        return {name: fns[name]() for name in order}
+        d = {}
+        for name in order:
+            call, canon = fns[name]
+            raw = call()
+            d[name] = canon(raw)
+            if name in self.CONTAINERS:
+                spoil(raw)
+        reread = {}
+        for name in order:
+            if name in self.CONTAINERS:
+                call, canon = fns[name]
+                v = canon(call())
+                if v != d[name]:
+                    reread[name] = v
+        if reread:
+            d['reread'] = reread
+        d['commonality'] = self.commonality(tc)
+        return d
+
+    CONTAINERS = ('items', 'keys', 'values', 'mc', 'elements', 'iter')
+
+    @staticmethod
+    def commonality(tc):
+        """get_commonality() as a float, None when it raises (empty counter: outside the statement)"""
+        try:
+            return float(tc.get_commonality())
+        except Exception:
+            return None
 
     def render(self, case, obs):
         def kn(s):
@@ -777,13 +854,14 @@ class C20(Property):
             if 'exc' in o:
                 recs.append('X' + o['exc'])
             elif 'q' in o:
-                recs.append('Q' + pairs(o['q']))
+                recs.append('Q' + pairs(o['q']) + ('!reread' if 'q2' in o else ''))
             else:
                 recs.append(' | '.join(' '.join([
                     'T%d' % d['total'], 'I' + pairs(d['items']), 'K' + nats(kn(k) for k in d['keys']),
                     'V' + nats(d['values']), 'L%d' % d['len'], 'C%d' % d['common'], 'U%d' % d['uncommon'],
                     'M' + pairs(d['mc']), 'G' + nats(d['gets']), 'H' + nats(d['has']),
-                    'E' + nats(kn(k) for k in d['elements'])]) for d in o['d']))
+                    'E' + nats(kn(k) for k in d['elements'])] +
+                    (['!reread:' + ','.join(sorted(d['reread']))] if d.get('reread') else [])) for d in o['d']))
         return ';'.join(recs)
 
     # ------------------------------------------------------------------ oracle (independent of the model)
@@ -849,6 +927,10 @@ class C20(Property):
                 n = op[1]
                 res = o['q']
                 items = last_items[cur]
+                if 'q2' in o:
+                    return Failure('reread', 'most_common(%d) returned %r, and %r when asked again after the caller '
+                                   'modified the first list in place (nothing was added in between); items %r'
+                                   % (n, res, o['q2'], items))
                 cnts = sorted((c for _, c in items), reverse=True)
                 if n <= 0:
                     if res != []:
@@ -893,6 +975,11 @@ class C20(Property):
     def judge(self, o, true, total, w, case, ex):
         """every clause of the statement on one dump of one counter"""
         th = case['th']
+        if o.get('reread'):
+            name = sorted(o['reread'])[0]
+            api = {'mc': 'most_common', 'iter': 'iterkeys'}.get(name, name)
+            return Failure('reread', '%s() returned %r, and %r when asked again after the caller modified the first '
+                           'result in place (nothing was added in between)' % (api, o[name], o['reread'][name]))
         if o['total'] != total:
             return Failure('total', 'total %d after %d additions' % (o['total'], total))
         slack = total // w
